@@ -47,9 +47,11 @@ type Engine struct {
 	StubsUsed  map[string]int
 	nextState  int
 	pdomCache  map[*ssa.Function]map[*ssa.BasicBlock]*ssa.BasicBlock
+	rpoCache   map[*ssa.Function]map[*ssa.BasicBlock]int
 	MaxSteps   int
 	MaxVisits  int
 	NoMerge    bool
+	EagerFeas  bool
 	stopOnAssertFail bool
 	Trace      bool
 	uniq       int
@@ -60,6 +62,7 @@ type Engine struct {
 	nativeMemo map[uintptr]int
 	typeCache  map[string]types.Type
 	AssertLabels map[string]*AssertStat
+	ForkSites map[string]int
 }
 
 type AssertStat struct{ Checked, Failed, Unknown int }
@@ -112,7 +115,7 @@ func NewEngine(prog *ssa.Program, solverKind string, timeoutMs int) (*Engine, er
 	e := &Engine{Prog: prog, TT: tt, Solver: s, Intrinsics: map[string]Intrinsic{}, Redirects: map[string]*ssa.Function{},
 		NativeGlob: map[string]interface{}{}, Reach: map[string]int{}, inputSeen: map[string]bool{},
 		Encoded: map[string]bool{}, StubsUsed: map[string]int{}, pdomCache: map[*ssa.Function]map[*ssa.BasicBlock]*ssa.BasicBlock{},
-		MaxSteps: 50_000_000, MaxVisits: 20000, Ctx: map[string]interface{}{}, InterpPkgs: map[string]bool{},
+		rpoCache: map[*ssa.Function]map[*ssa.BasicBlock]int{}, MaxSteps: 50_000_000, MaxVisits: 20000, Ctx: map[string]interface{}{}, InterpPkgs: map[string]bool{},
 		nativeMemo: map[uintptr]int{}, typeCache: map[string]types.Type{}, AssertLabels: map[string]*AssertStat{}}
 	registerIntrinsics(e)
 	return e, nil
